@@ -70,7 +70,7 @@ class C10(Check):
     assumptions = [
         "the harness owns the schedule: suspension happens only at harness points (no timers, I/O or threads)",
         "CPython's asyncio ready queue (loop._ready) is used to detect quiescence",
-        "a pass-through probe middleware (never suspends) is added outermost to observe in-flight intervals",
+        "a pass-through probe middleware (a plain function returning the next handler's awaitable, never suspends) is added outermost to observe in-flight intervals",
     ]
     trusted_base = ['pbt/sched.py', 'pbt/refserver.py', 'CPython asyncio']
     required_classes = ['mode/concurrent', 'mode/sequential', 'schedules/exhaustive', 'el/notification', 'el/plain', 'el/rpc', 'el/exc',
@@ -125,13 +125,19 @@ class C10(Check):
         ev = stack.Events()
         flight: List[List[Any]] = []
 
-        async def probe(request, context, handler):
+        def probe(request, context, handler):
+            # a middleware written as a PLAIN function that returns the next handler's awaitable (allowed by the middleware type):
+            # its entry part runs when the dispatcher calls the handler, not when the result is awaited
             tag = request.params.get('tag') if isinstance(request.params, dict) else None
             flight.append(['begin', tag])
-            try:
-                return await handler(request, context)
-            finally:
-                flight.append(['finish', tag])
+            inner = handler(request, context)
+
+            async def finish():
+                try:
+                    return await inner
+                finally:
+                    flight.append(['finish', tag])
+            return finish()
 
         mws = [probe]
         if spec.get('mw_suspend') is not None:
